@@ -154,7 +154,7 @@ def case(dims, B, H, P):
                 msgs.append(f"a repeat was returned after only {len(s.sizes) - 1} of {P} passes")
         return bool(msgs), f"history={hist} draws={pts} B={B} P={P}: " + ("; ".join(msgs) or "as specified")
 
-    return Case(name, body, replay, time_budget=400, split=4 if (dims == 2 and B == 2 and H + P >= 3) or B * (P + 1) + H >= 8 else 0)
+    return Case(name, body, replay, time_budget=400, split=4 if (dims == 2 and B == 2 and H + P >= 3) or B * (P + 1) + H >= 7 else 0)
 
 
 def cases(tier, seed):
@@ -165,10 +165,10 @@ def cases(tier, seed):
         combos += [(1, 2, 1, 3), (1, 3, 1, 1), (2, 2, 1, 1), (2, 2, 2, 2), (2, 1, 2, 3), (1, 3, 0, 1)]
     else:
         combos = [(d, 1, h, p) for d in (1, 2) for h in (0, 1, 2, 3) for p in range(7)]
-        combos += [(1, 2, h, p) for h in (0, 1, 2, 3) for p in range(5)]
-        combos += [(2, 2, h, p) for h in (0, 1, 2) for p in range(4)]
+        combos += [(1, 2, h, p) for h in (0, 1, 2, 3) for p in range(4)]
+        combos += [(2, 2, h, p) for h in (0, 1, 2) for p in range(3)]
         combos += [(1, 3, h, p) for h in (0, 1, 2) for p in (0, 1, 2)]
-        combos += [(1, 2, 1, 6), (1, 2, 2, 5)]
+        combos += [(1, 2, 0, 6), (1, 2, 1, 5), (1, 2, 1, 4)]
     for d, B, H, P in combos:
         cs.append(case(d, B, H, P))
     return cs
